@@ -1,6 +1,6 @@
 """C20  raising the fuzz limit never changes a push that already succeeded (DESIGN §4 C20)."""
 from .. import cfg, dataflow as df, guards, patterns as pt
-from ..common import A, calls_named, APPLY_CONFIG
+from ..common import is_min_path, A, calls_named, APPLY_CONFIG
 from ..facts import callee_of
 from . import c02
 
@@ -115,7 +115,7 @@ def r1(ck):
                 elif any(rp.endswith(s) for s in REPORT_CTORS):
                     ok = callee_fn is not None and callee_fn.local_name(ai + 1) == "fuzz"
                     why = "recorded in the report"
-                elif rp == "core::cmp::min":
+                elif is_min_path(rp) or is_min_path(c.get("path")):
                     # the result must flow only into the end of the level range
                     dest = t["dest"]["l"]
                     dheld = forward_copies(fn, dest)
